@@ -1078,7 +1078,8 @@ class TorchBackendProvider(BackendProvider):
             method = {'+': 'sum', '*': 'prod', '|': 'amax', '&': 'amin'}.get(op)
             if method is None:
                 return None
-            return f'({arg_src}).{method}(0)'
+            # an empty operand raises and the interpreter answers (+/[] is [], not 0.0)
+            return f'_kg_nonempty({arg_src}).{method}(0)'
 
         if node_type == 'scan':
             op, arg = ir[1], ir[2]
